@@ -207,6 +207,21 @@ def catalogue_cases():
     fup = fld(ref("Up"))
     f = P(E("Up", "ZA"), ["import", None, None, "zl.bitproto"]); f["zl.bitproto"] = [["proto", None, "zl"], M("Kk", fup)]
     add(f, 9, fup, "definition of the importing file used in the imported file", file="zl.bitproto")
+    # ... whatever the use (type, array capacity, option value, constant expression) and the depth
+    for use, node, code in (("field type", fld(ref("Up")), 9), ("array capacity", fld(A(["bool"], ["UPK"])), 7),
+                            ("option value", ["option", None, "max_bytes", ["ref", ["UPK"]]], 7),
+                            ("constant expression", ["const", None, "ZK", ["expr", ["add", ["ref", ["UPK"]], ["int", 1]]]], 7),
+                            ("constant copy", ["const", None, "ZK", ["ref", ["UPK"]]], 7)):
+        for depth in (1, 2):
+            inner = [["proto", None, "zl"]] + ([copy.deepcopy(node)] if node[0] == "const"
+                                               else [M("Kk", fld(u3, "k", 9), copy.deepcopy(node))])
+            used = inner[1] if node[0] == "const" else inner[1][4][1]
+            f = P(E("Up", "ZA"), C("UPK", 4), ["import", None, None, "zl.bitproto" if depth == 1 else "zmid.bitproto"])
+            if depth == 2:
+                f["zmid.bitproto"] = [["proto", None, "zmid"], ["import", None, None, "zl.bitproto"]]
+            f["zl.bitproto"] = inner
+            add(f, code, used, f"definition of an importing file used in an imported file as {use}, import depth {depth}",
+                file="zl.bitproto")
     add({"rootp.bitproto": [M("Mm")]}, 31, None, "missing proto statement")
     f = P(["import", None, None, "zl.bitproto"]); f["zl.bitproto"] = [M("Kk")]
     add(f, 31, None, "missing proto statement in an imported file", file="zl.bitproto")
@@ -293,7 +308,7 @@ def run(ck):
     for k in fixed_finding_cases():
         k.update(trad=False, origin=k["rule"])
         specs.append(k)
-    specs.extend(gen_stream(ck, fs.scaled(ck.n(40, 700)), ck.n(7, 8), ck.n(1, 2)))
+    specs.extend(gen_stream(ck, fs.scaled(ck.n(36, 700)), ck.n(7, 8), ck.n(1, 2)))
 
     cases = []
     for i, s in enumerate(specs):
@@ -307,7 +322,7 @@ def run(ck):
         except ValueError:
             continue
         cases.append(fs.Case(files, root, bool(s.get("trad")), s["origin"], expect=s, texts=texts,
-                             cli=(i % 3 == 0) or i < n_corpus + 12))
+                             cli=(i % 4 == 0) or i < n_corpus + 12))
     import time
     t0 = time.time()
     results = fs.run_front(ck, cases, "c")
